@@ -22,9 +22,9 @@ def _id(t):
         return t[1]
     return None
 
-def to_shape(t):
+def to_shape(t, bound=()):
     if t[0] == 'call' and t[1].endswith('::into_structure') and t[2]:
-        return to_shape(t[2][0])
+        return to_shape(t[2][0], bound)
     if t[0] == 'ctor' and t[1] in KIND and len(t[2]) == 1:
         s = t[2][0]
         c, i = _cls(absx.field_term(s, 'class')), _id(absx.field_term(s, 'id'))
@@ -36,34 +36,56 @@ def to_shape(t):
         c, i = _cls(absx.field_term(s, 'class')), _id(absx.field_term(s, 'id'))
         if c is None or i is None:
             return ('UNKNOWN', 'class/id not constant', t)
-        return ('C', c, i, items(absx.field_term(s, 'inner')))
+        return ('C', c, i, items(absx.field_term(s, 'inner'), bound))
     if t[0] == 'ctor' and t[1] == 'Tag::ExplicitTag' and len(t[2]) == 1:
         s = t[2][0]
         c, i = _cls(absx.field_term(s, 'class')), _id(absx.field_term(s, 'id'))
         if c is None or i is None:
             return ('UNKNOWN', 'class/id not constant', t)
-        return ('C', c, i, [to_shape(absx.field_term(s, 'inner'))])
+        return ('C', c, i, [to_shape(absx.field_term(s, 'inner'), bound)])
     if t[0] == 'ctor' and t[1] == 'Tag::StructureTag' and len(t[2]) == 1:
-        return to_shape(t[2][0])
+        return to_shape(t[2][0], bound)
     if t[0] == 'struct' and t[1].endswith('StructureTag'):
         c, i = _cls(absx.field_term(t, 'class')), _id(absx.field_term(t, 'id'))
         pl = absx.field_term(t, 'payload')
         if c is None or i is None:
             return ('UNKNOWN', 'class/id not constant', t)
         if pl[0] == 'ctor' and pl[1] == 'PL::C':
-            return ('C', c, i, items(pl[2][0]))
+            return ('C', c, i, items(pl[2][0], bound))
         if pl[0] == 'ctor' and pl[1] == 'PL::P':
             return ('P', 'RAW', c, i, pl[2][0])
         return ('UNKNOWN', 'payload', t)
     return ('ANY', t)
 
-def items(t):
+def free_elems(t, bound=()):
+    """generic loop elements ('elem', src, n) occurring in t that are not bound by an enclosing many()"""
+    out = []
+    def rec(x, bound):
+        if isinstance(x, tuple) and x:
+            if x[0] == 'many' and len(x) == 4:
+                rec(x[1], bound); rec(x[3], bound + (x[2],)); return
+            if x[0] == 'elem' and len(x) == 3 and x not in bound and x not in out:
+                out.append(x)
+            for y in x:
+                rec(y, bound)
+    rec(t, bound)
+    return out
+
+def items(t, bound=()):
     if t[0] == 'vec':
-        return [to_shape(x) for x in t[1]]
+        out = []
+        for x in t[1]:
+            fe = [e for e in free_elems(x) if e not in bound]
+            if fe:
+                # an element pushed inside a `for` loop over fe[0][1]: one generic element stands for all
+                out.append(('MANY', fe[0][1], fe[0], to_shape(x, bound + (fe[0],))))
+            else:
+                out.append(to_shape(x, bound))
+        return out
     if t[0] == 'many':
-        return [('MANY', t[1], t[2], to_shape(t[3]))]
+        return [('MANY', t[1], t[2], to_shape(t[3], bound + (t[2],)))]
     if t[0] == 'vecpush':
-        return items(t[1]) + [to_shape(t[2])]
+        return items(t[1], bound) + [to_shape(t[2], bound)]
     return [('UNKNOWN', 'item list', t)]
 
 def fmt_shape(s, depth=0):
